@@ -1,4 +1,5 @@
 import Proofs.Props.C01
+import Proofs.Props.C02
 import Mathlib.LinearAlgebra.Matrix.NonsingularInverse
 import Mathlib.LinearAlgebra.Matrix.Permutation
 /-!
@@ -152,5 +153,302 @@ theorem closure_input_invariant (s : ℝ) (hs : s ≠ 0) (P : PotSpec ℝ) (σ r
 
 /-- … and multiplies potentials of mean force by that factor: `−(s kT) ln g = s (−kT ln g)` -/
 theorem pmf_scales (s kT g : ℝ) : -(s * kT) * Real.log g = s * (-kT * Real.log g) := by ring
+
+/-! ## permutation equivariance of the whole `cost` evaluation -/
+
+/-- for symmetric `Ω`, `C` the matrix map of `cost` gives a symmetric `H` -/
+theorem Hmap_symm (Ω C : Matrix n n ℝ) (hΩ : Ωᵀ = Ω) (hC : Cᵀ = C) (hdet : IsUnit (1 - Ω * C).det) :
+    (Hmap Ω C)ᵀ = Hmap Ω C := by
+  unfold Hmap
+  set A := 1 - Ω * C with hA
+  set B := 1 - C * Ω with hB
+  have hAT : Aᵀ = B := by
+    rw [hA, hB, Matrix.transpose_sub, Matrix.transpose_one, Matrix.transpose_mul, hΩ, hC]
+  have hdetB : IsUnit B.det := by rw [← hAT, Matrix.det_transpose]; exact hdet
+  set X := Ω * C * Ω with hX
+  have hcomm : A * X = X * B := by rw [hA, hB, hX]; noncomm_ring
+  have key : A⁻¹ * X = X * B⁻¹ := by
+    calc A⁻¹ * X = A⁻¹ * X * (B * B⁻¹) := by rw [Matrix.mul_nonsing_inv _ hdetB, Matrix.mul_one]
+      _ = A⁻¹ * (X * B) * B⁻¹ := by noncomm_ring
+      _ = A⁻¹ * (A * X) * B⁻¹ := by rw [hcomm]
+      _ = (A⁻¹ * A) * X * B⁻¹ := by noncomm_ring
+      _ = X * B⁻¹ := by rw [Matrix.nonsing_inv_mul _ hdet, Matrix.one_mul]
+  have hXT : Xᵀ = X := by
+    rw [hX, Matrix.transpose_mul, Matrix.transpose_mul, hΩ, hC, Matrix.mul_assoc]
+  have e1 : A⁻¹ * (Ω * C) * Ω = A⁻¹ * X := by rw [hX]; noncomm_ring
+  rw [e1, Matrix.transpose_mul, hXT, Matrix.transpose_nonsing_inv, hAT, key]
+
+/-- a relabelling of the `m` site types: new type `i` is old type `σ i` -/
+structure Relabel (m : ℕ) where
+  σ : ℕ → ℕ
+  τ : ℕ → ℕ
+  σ_lt : ∀ i, i < m → σ i < m
+  τ_lt : ∀ i, i < m → τ i < m
+  στ : ∀ i, i < m → σ (τ i) = i
+  τσ : ∀ i, i < m → τ (σ i) = i
+
+/-- the permutation of `Fin m` a relabelling induces -/
+def Relabel.equiv {m : ℕ} (P : Relabel m) : Fin m ≃ Fin m where
+  toFun i := ⟨P.σ i.1, P.σ_lt i.1 i.2⟩
+  invFun i := ⟨P.τ i.1, P.τ_lt i.1 i.2⟩
+  left_inv i := Fin.ext (P.τσ i.1 i.2)
+  right_inv i := Fin.ext (P.στ i.1 i.2)
+
+/-- `p'` is the PRISM object of the relabelled system: every per-pair datum moved along with its pair -/
+structure Relabelled (p p' : Prism ℝ) (P : Relabel p.n) : Prop where
+  hn : p'.n = p.n
+  hdom : p'.dom = p.dom
+  hom : ∀ l i j, l < p.dom.length → i < p.n → j < p.n → p'.omega.at l i j = p.omega.at l (P.σ i) (P.σ j)
+  hpair : ∀ i j, i < p.n → j < p.n → p'.pairD.at 0 i j = p.pairD.at 0 (P.σ i) (P.σ j)
+  hK : ∀ i j, i < p.n → j < p.n → p'.cloK (loI i j) (hiI i j) = p.cloK (loI (P.σ i) (P.σ j)) (hiI (P.σ i) (P.σ j))
+  hσ : ∀ i j, i < p.n → j < p.n → p'.cloSigma (loI i j) (hiI i j) = p.cloSigma (loI (P.σ i) (P.σ j)) (hiI (P.σ i) (P.σ j))
+  hu : ∀ l i j, l < p.dom.length → i < p.n → j < p.n →
+    (p'.u (loI i j) (hiI i j))[l]! = (p.u (loI (P.σ i) (P.σ j)) (hiI (P.σ i) (P.σ j)))[l]!
+
+
+theorem lohi_perm {m : ℕ} (P : Relabel m) (i j : ℕ) :
+    (loI (P.σ (loI i j)) (P.σ (hiI i j)) = loI (P.σ i) (P.σ j)) ∧ (hiI (P.σ (loI i j)) (P.σ (hiI i j)) = hiI (P.σ i) (P.σ j)) := by
+  by_cases h : i ≤ j
+  · rw [loI_of_le h, hiI_of_le h]; exact ⟨rfl, rfl⟩
+  · have h' : j ≤ i := by omega
+    have e1 : loI i j = j := by unfold loI; rw [if_neg h]
+    have e2 : hiI i j = i := by unfold hiI; rw [if_neg h]
+    rw [e1, e2, loI_comm, hiI_comm]; exact ⟨rfl, rfl⟩
+
+/-- **`cost` is equivariant under every relabelling of the site types** (symmetric trial `x`, symmetric stored ω):
+if `p'` is the relabelled object and `x'` the relabelled input, then every array the evaluation leaves on `p'` — the
+Fourier-space `directCorr`, `totalCorr` and the returned residual `y` — is the relabelled array of `p`.  In particular
+`x` is a root for `p` iff the relabelled `x` is a root for `p'`. -/
+theorem cost_perm_equivariant {inv : ℕ → Array ℝ → Array ℝ} {p p' q q' : Prism ℝ} {x x' : Array ℝ}
+    (P : Relabel p.n) (R : Relabelled p p' P) (w : PWf p) (w' : PWf p') (hd : C07.DInv p.dom)
+    (hc : p.cost inv x = .ok q) (hc' : p'.cost inv x' = .ok q')
+    (hx : ∀ l i j, l < p.dom.length → i < p.n → j < p.n → x'[(l * p.n + i) * p.n + j]! = x[(l * p.n + P.σ i) * p.n + P.σ j]!)
+    (hxs : ∀ l i j, l < p.dom.length → i < p.n → j < p.n → x[(l * p.n + i) * p.n + j]! = x[(l * p.n + j) * p.n + i]!)
+    (hΩs : ∀ l i j, l < p.dom.length → i < p.n → j < p.n → p.omega.at l i j = p.omega.at l j i)
+    (hρs : ∀ i j, i < p.n → j < p.n → p.pairD.at 0 i j = p.pairD.at 0 j i)
+    (hρ : ∀ i j, i < p.n → j < p.n → p.pairD.at 0 i j ≠ 0)
+    (hinv : ∀ l, l < p.dom.length → InvOn inv p.n fun i j => (if i = j then 1 else 0) - ∑ k ∈ range p.n, p.omega.at l i k * q.directCorr.at l k j)
+    (hinv' : ∀ l, l < p.dom.length → InvOn inv p'.n fun i j => (if i = j then 1 else 0) - ∑ k ∈ range p'.n, p'.omega.at l i k * q'.directCorr.at l k j)
+    (hdet : ∀ l, l < p.dom.length → IsUnit (1 - C01.mat p.n p.omega l * C01.mat p.n q.directCorr l).det)
+    {l i j : ℕ} (hl : l < p.dom.length) (hi : i < p.n) (hj : j < p.n) :
+    q'.directCorr.at l i j = q.directCorr.at l (P.σ i) (P.σ j) ∧
+    q'.totalCorr.at l i j = q.totalCorr.at l (P.σ i) (P.σ j) ∧
+    q'.y[(l * p.n + i) * p.n + j]! = q.y[(l * p.n + P.σ i) * p.n + P.σ j]! := by
+  obtain ⟨T⟩ := cost_trace inv p q x hc
+  obtain ⟨T'⟩ := cost_trace inv p' q' x' hc'
+  have hn := R.hn; have hdom := R.hdom
+  have hL : p'.dom.length = p.dom.length := by rw [hdom]
+  -- (1) closure stage, entry-wise, for every grid point and pair
+  have hcR : ∀ m a b, m < p.dom.length → a < p.n → b < p.n → T'.cR.at m a b = T.cR.at m (P.σ a) (P.σ b) := by
+    intro m a b hm ha hb
+    have hlo := loI_lt ha hb; have hhi := hiI_lt ha hb
+    refine closure_stage_local T T' hm (by rw [hL]; exact hm) (P.σ_lt a ha) (P.σ_lt b hb) (by rw [hn]; exact ha) (by rw [hn]; exact hb)
+      (by rw [hdom]) (R.hK a b ha hb) (R.hσ a b ha hb) (R.hu m a b hm ha hb) ?_
+    rw [hn, hx m (loI a b) (hiI a b) hm hlo hhi]
+    -- x is symmetric, so reading (σ lo, σ hi) or the sorted pair of (σ a, σ b) is the same
+    by_cases hab : a ≤ b
+    · rw [loI_of_le hab, hiI_of_le hab]
+      by_cases hs : P.σ a ≤ P.σ b
+      · rw [loI_of_le hs, hiI_of_le hs]
+      · have hs' : P.σ b ≤ P.σ a := by omega
+        rw [loI_comm, hiI_comm, loI_of_le hs', hiI_of_le hs']
+        exact hxs m _ _ hm (P.σ_lt a ha) (P.σ_lt b hb)
+    · have hba : b ≤ a := by omega
+      have e1 : loI a b = b := by unfold loI; rw [if_neg hab]
+      have e2 : hiI a b = a := by unfold hiI; rw [if_neg hab]
+      rw [e1, e2]
+      by_cases hs : P.σ a ≤ P.σ b
+      · rw [loI_of_le hs, hiI_of_le hs]
+        exact hxs m _ _ hm (P.σ_lt b hb) (P.σ_lt a ha)
+      · have hs' : P.σ b ≤ P.σ a := by omega
+        rw [loI_comm, hiI_comm, loI_of_le hs', hiI_of_le hs']
+  -- (2) transform stage
+  have hcF : ∀ m a b, m < p.dom.length → a < p.n → b < p.n → q'.directCorr.at m a b = q.directCorr.at m (P.σ a) (P.σ b) := by
+    intro m a b hm ha hb
+    rw [(transform_stage_local T' (by rw [hL]; exact hm) (by rw [hn]; exact ha) (by rw [hn]; exact hb)).1,
+      (transform_stage_local T hm (P.σ_lt a ha) (P.σ_lt b hb)).1, hdom]
+    apply C07.toFourier_congr p.dom _ _ _ m hm
+    intro k hk
+    rw [C07.pair_get _ _ _ _ (by rw [T'.cR_meta.1, hL]; exact hk), C07.pair_get _ _ _ _ (by rw [T.cR_meta.1]; exact hk)]
+    exact hcR k a b hk ha hb
+  -- (3) matrix stage
+  have hH : ∀ m a b, m < p.dom.length → a < p.n → b < p.n → q'.totalCorr.at m a b = q.totalCorr.at m (P.σ a) (P.σ b) := by
+    intro m a b hm ha hb
+    have e := P.equiv
+    have hΩ' : C01.mat p.n p'.omega m = (C01.mat p.n p.omega m).submatrix P.equiv P.equiv := by
+      ext u v; simp only [C01.mat, Matrix.of_apply, Matrix.submatrix_apply, Relabel.equiv, Equiv.coe_fn_mk]
+      exact R.hom m u.1 v.1 hm u.2 v.2
+    have hC' : C01.mat p.n q'.directCorr m = (C01.mat p.n q.directCorr m).submatrix P.equiv P.equiv := by
+      ext u v; simp only [C01.mat, Matrix.of_apply, Matrix.submatrix_apply, Relabel.equiv, Equiv.coe_fn_mk]
+      exact hcF m u.1 v.1 hm u.2 v.2
+    have h1 := cost_totalCorr_is_Hmap w hc hm (hinv m hm) hρ (hdet m hm)
+    have hρ' : ∀ u v, u < p'.n → v < p'.n → p'.pairD.at 0 u v ≠ 0 := by
+      intro u v hu hv; rw [hn] at hu hv; rw [R.hpair u v hu hv]; exact hρ _ _ (P.σ_lt u hu) (P.σ_lt v hv)
+    have hdet' : IsUnit (1 - C01.mat p'.n p'.omega m * C01.mat p'.n q'.directCorr m).det := by
+      rw [hn, hΩ', hC', Matrix.submatrix_mul_equiv]
+      have : (1 : Matrix (Fin p.n) (Fin p.n) ℝ) - (C01.mat p.n p.omega m * C01.mat p.n q.directCorr m).submatrix P.equiv P.equiv
+          = (1 - C01.mat p.n p.omega m * C01.mat p.n q.directCorr m).submatrix P.equiv P.equiv := by
+        ext u v; simp [Matrix.sub_apply, Matrix.one_apply]
+      rw [this, Matrix.det_submatrix_equiv_self]; exact hdet m hm
+    have h2 := cost_totalCorr_is_Hmap w' hc' (by rw [hL]; exact hm) (hinv' m hm) hρ' hdet'
+    have h2' : C01.matH p.n p'.pairD q'.totalCorr m = Hmap (C01.mat p.n p'.omega m) (C01.mat p.n q'.directCorr m) := by
+      have := h2; rw [hn] at this; exact this
+    rw [hΩ', hC', matrix_map_perm, ← h1] at h2'
+    have h3 := congrFun (congrFun h2' ⟨a, ha⟩) ⟨b, hb⟩
+    simp only [C01.matH, Matrix.of_apply, Matrix.submatrix_apply, Relabel.equiv, Equiv.coe_fn_mk] at h3
+    rw [R.hpair a b ha hb] at h3
+    exact mul_left_cancel₀ (hρ _ _ (P.σ_lt a ha) (P.σ_lt b hb)) h3
+  refine ⟨hcF l i j hl hi hj, hH l i j hl hi hj, ?_⟩
+  -- (4) back-transform and residual
+  have hHsym : ∀ m a b, m < p.dom.length → a < p.n → b < p.n → q.totalCorr.at m a b = q.totalCorr.at m b a := by
+    intro m a b hm ha hb
+    have h1 := cost_totalCorr_is_Hmap w hc hm (hinv m hm) hρ (hdet m hm)
+    have hΩT : (C01.mat p.n p.omega m)ᵀ = C01.mat p.n p.omega m := by
+      ext u v; simp only [C01.mat, Matrix.transpose_apply, Matrix.of_apply]; exact hΩs m v.1 u.1 hm v.2 u.2
+    have hCT : (C01.mat p.n q.directCorr m)ᵀ = C01.mat p.n q.directCorr m := by
+      ext u v; simp only [C01.mat, Matrix.transpose_apply, Matrix.of_apply]
+      exact (transform_stage_local T hm v.2 u.2).2
+    have hs := Hmap_symm _ _ hΩT hCT (hdet m hm)
+    rw [← h1] at hs
+    have h3 := congrFun (congrFun hs ⟨a, ha⟩) ⟨b, hb⟩
+    simp only [C01.matH, Matrix.transpose_apply, Matrix.of_apply] at h3
+    rw [hρs b a hb ha] at h3
+    exact (mul_left_cancel₀ (hρ a b ha hb) h3).symm
+  have hgoF : ∀ m a b, m < p.dom.length → a < p.n → b < p.n → T'.goF.at m a b = T.goF.at m (P.σ a) (P.σ b) := by
+    intro m a b hm ha hb
+    rw [T'.goF_at (by rw [hL]; exact hm) (by rw [hn]; exact ha) (by rw [hn]; exact hb), T.goF_at hm (P.σ_lt a ha) (P.σ_lt b hb),
+      ← T'.hq_h, ← T.hq_h, ← T'.hq_c, ← T.hq_c, hH m a b hm ha hb, hcF m a b hm ha hb]
+  have hgoFsym : ∀ m a b, m < p.dom.length → a < p.n → b < p.n → T.goF.at m a b = T.goF.at m b a := by
+    intro m a b hm ha hb
+    rw [T.goF_at hm ha hb, T.goF_at hm hb ha, ← T.hq_h, hHsym m a b hm ha hb, T.cF_symm hm ha hb]
+  have hgo : T'.go.at l i j = T.go.at l (P.σ i) (P.σ j) := by
+    rw [T'.go_at (by rw [hL]; exact hl) (by rw [hn]; exact hi) (by rw [hn]; exact hj), T.go_at hl (P.σ_lt i hi) (P.σ_lt j hj), hdom]
+    apply C07.toReal_congr p.dom _ _ _ l hl
+    intro k hk
+    have hlo := loI_lt hi hj; have hhi := hiI_lt hi hj
+    rw [C07.pair_get _ _ _ _ (by rw [T'.goF_meta.1, hL]; exact hk), C07.pair_get _ _ _ _ (by rw [T.goF_meta.1]; exact hk),
+      hgoF k _ _ hk hlo hhi]
+    -- (σ lo, σ hi) versus the sorted pair of (σ i, σ j): equal up to a swap, and goF is symmetric
+    by_cases hab : i ≤ j
+    · rw [loI_of_le hab, hiI_of_le hab]
+      by_cases hs : P.σ i ≤ P.σ j
+      · rw [loI_of_le hs, hiI_of_le hs]
+      · have hs' : P.σ j ≤ P.σ i := by omega
+        rw [loI_comm, hiI_comm, loI_of_le hs', hiI_of_le hs']
+        exact hgoFsym k _ _ hk (P.σ_lt i hi) (P.σ_lt j hj)
+    · have hba : j ≤ i := by omega
+      have e1 : loI i j = j := by unfold loI; rw [if_neg hab]
+      have e2 : hiI i j = i := by unfold hiI; rw [if_neg hab]
+      rw [e1, e2]
+      by_cases hs : P.σ i ≤ P.σ j
+      · rw [loI_of_le hs, hiI_of_le hs]
+        exact hgoFsym k _ _ hk (P.σ_lt j hj) (P.σ_lt i hi)
+      · have hs' : P.σ j ≤ P.σ i := by omega
+        rw [loI_comm, hiI_comm, loI_of_le hs', hiI_of_le hs']
+  have hy' := T'.y_at (l := l) (i := i) (j := j) (by rw [hL]; exact hl) (by rw [hn]; exact hi) (by rw [hn]; exact hj)
+  rw [hn] at hy'
+  rw [hy', T.y_at hl (P.σ_lt i hi) (P.σ_lt j hj), hgo, hdom]
+  congr 2
+  rw [T'.gin_at (by rw [hL]; exact hl) (by rw [hn]; exact hi) (by rw [hn]; exact hj), T.gin_at hl (P.σ_lt i hi) (P.σ_lt j hj), hn,
+    hx l i j hl hi hj, hdom]
+
+
+/-! ## species splitting at the level of the whole `cost` evaluation -/
+
+/-- `p'` (rank `m`) is a labelled split of the one-component object `p`: species densities `ρ_a` summing to `ρ`, every
+pair carries the base pair's closure / potential / contact distance, and the stored ω matrix is symmetric with row sums
+`ρ_a · ω` (`ω = Ω_base / ρ`) -/
+structure SplitOf (p p' : Prism ℝ) (ρa : ℕ → ℝ) (ρ : ℝ) : Prop where
+  hn1 : p.n = 1
+  hdom : p'.dom = p.dom
+  hρ : ∑ a ∈ range p'.n, ρa a = ρ
+  hρ0 : ρ ≠ 0
+  hρa : ∀ a, a < p'.n → ρa a ≠ 0
+  hpair : p.pairD.at 0 0 0 = ρ ^ 2
+  hpair' : ∀ a b, a < p'.n → b < p'.n → p'.pairD.at 0 a b = ρa a * ρa b
+  hsym : ∀ l a b, l < p.dom.length → a < p'.n → b < p'.n → p'.omega.at l a b = p'.omega.at l b a
+  hrow : ∀ l a, l < p.dom.length → a < p'.n → ∑ b ∈ range p'.n, p'.omega.at l a b = ρa a * (p.omega.at l 0 0 / ρ)
+  hK : ∀ a b, a < p'.n → b < p'.n → p'.cloK (loI a b) (hiI a b) = p.cloK 0 0
+  hσ : ∀ a b, a < p'.n → b < p'.n → p'.cloSigma (loI a b) (hiI a b) = p.cloSigma 0 0
+  hu : ∀ l a b, l < p.dom.length → a < p'.n → b < p'.n → (p'.u (loI a b) (hiI a b))[l]! = (p.u 0 0)[l]!
+
+/-- **splitting one species into labelled species changes nothing**: for the lifted trial input (`x'_{ab} = x` for every
+labelled pair) every labelled pair of the split system gets exactly the unsplit `ĉ`, `ĥ` and residual `y` — for every
+number of labels and every split ratio.  In particular the lifted root of the unsplit system is a root of the split one,
+and `g_AA = g_AB = g_BB = g`. -/
+theorem cost_split_lifts {inv : ℕ → Array ℝ → Array ℝ} {p p' q q' : Prism ℝ} {x x' : Array ℝ} {ρa : ℕ → ℝ} {ρ : ℝ}
+    (S : SplitOf p p' ρa ρ) (w : PWf p) (w' : PWf p') (hd : C07.DInv p.dom)
+    (hc : p.cost inv x = .ok q) (hc' : p'.cost inv x' = .ok q')
+    (hx : ∀ l a b, l < p.dom.length → a < p'.n → b < p'.n → x'[(l * p'.n + a) * p'.n + b]! = x[(l * p.n + 0) * p.n + 0]!)
+    (hinv : ∀ l, l < p.dom.length → InvOn inv p.n fun i j => (if i = j then 1 else 0) - ∑ k ∈ range p.n, p.omega.at l i k * q.directCorr.at l k j)
+    (hinv' : ∀ l, l < p.dom.length → InvOn inv p'.n fun i j => (if i = j then 1 else 0) - ∑ k ∈ range p'.n, p'.omega.at l i k * q'.directCorr.at l k j)
+    (hdet' : ∀ l, l < p.dom.length → IsUnit (1 - C01.mat p'.n p'.omega l * C01.mat p'.n q'.directCorr l).det)
+    {l a b : ℕ} (hl : l < p.dom.length) (ha : a < p'.n) (hb : b < p'.n) :
+    q'.directCorr.at l a b = q.directCorr.at l 0 0 ∧
+    q'.totalCorr.at l a b = q.totalCorr.at l 0 0 ∧
+    q'.y[(l * p'.n + a) * p'.n + b]! = q.y[(l * p.n + 0) * p.n + 0]! := by
+  obtain ⟨T⟩ := cost_trace inv p q x hc
+  obtain ⟨T'⟩ := cost_trace inv p' q' x' hc'
+  have hL : p'.dom.length = p.dom.length := by rw [S.hdom]
+  have h0 : (0 : ℕ) < p.n := by rw [S.hn1]; norm_num
+  have hlo0 : loI 0 0 = 0 := rfl
+  have hhi0 : hiI 0 0 = 0 := rfl
+  have hcR : ∀ m c e, m < p.dom.length → c < p'.n → e < p'.n → T'.cR.at m c e = T.cR.at m 0 0 := by
+    intro m c e hm hc1 he
+    refine closure_stage_local T T' hm (by rw [hL]; exact hm) h0 h0 hc1 he (by rw [S.hdom]) ?_ ?_ ?_ ?_
+    · rw [hlo0, hhi0]; exact S.hK c e hc1 he
+    · rw [hlo0, hhi0]; exact S.hσ c e hc1 he
+    · rw [hlo0, hhi0]; exact S.hu m c e hm hc1 he
+    · rw [hlo0, hhi0]; exact hx m _ _ hm (loI_lt hc1 he) (hiI_lt hc1 he)
+  have hcF : ∀ m c e, m < p.dom.length → c < p'.n → e < p'.n → q'.directCorr.at m c e = q.directCorr.at m 0 0 := by
+    intro m c e hm hc1 he
+    rw [(transform_stage_local T' (by rw [hL]; exact hm) hc1 he).1, (transform_stage_local T hm h0 h0).1, S.hdom]
+    apply C07.toFourier_congr p.dom _ _ _ m hm
+    intro k hk
+    rw [C07.pair_get _ _ _ _ (by rw [T'.cR_meta.1, hL]; exact hk), C07.pair_get _ _ _ _ (by rw [T.cR_meta.1]; exact hk)]
+    exact hcR k c e hk hc1 he
+  have hH : ∀ m c e, m < p.dom.length → c < p'.n → e < p'.n → q'.totalCorr.at m c e = q.totalCorr.at m 0 0 := by
+    intro m c e hm hc1 he
+    -- the base relation h = ω c (ω + ρ h)
+    have hb := C02.rank1_from_cost_partial w S.hn1 hc hm (hinv m hm) (by rw [S.hpair]; exact pow_ne_zero 2 S.hρ0)
+    set Ωb := p.omega.at m 0 0 with hΩb
+    set cb := q.directCorr.at m 0 0 with hcb
+    set hh := q.totalCorr.at m 0 0 with hhh
+    rw [S.hpair] at hb
+    have hbase : hh = (Ωb / ρ) * cb * ((Ωb / ρ) + ρ * hh) := by
+      have hρ0 := S.hρ0
+      have : ρ ^ 2 * hh = ρ ^ 2 * ((Ωb / ρ) * cb * ((Ωb / ρ) + ρ * hh)) := by rw [hb]; field_simp
+      exact mul_left_cancel₀ (pow_ne_zero 2 hρ0) this
+    -- the lifted arrays solve the split system's PRISM equation
+    have hlift := split_lifts (n := Fin p'.n) (fun u => ρa u.1) ρ (Ωb / ρ) cb hh (C01.mat p'.n p'.omega m)
+      (by rw [← S.hρ, Finset.sum_range]) (by
+        ext u v; simp only [C01.mat, Matrix.transpose_apply, Matrix.of_apply]; exact S.hsym m v.1 u.1 hm v.2 u.2)
+      (by intro u; have := S.hrow m u.1 hm u.2; rw [Finset.sum_range] at this; simpa [C01.mat] using this) hbase
+    have hC' : C01.mat p'.n q'.directCorr m = Matrix.of fun _ _ => cb := by
+      ext u v; simp only [C01.mat, Matrix.of_apply]; exact hcF m u.1 v.1 hm u.2 v.2
+    have hρ' : ∀ u v, u < p'.n → v < p'.n → p'.pairD.at 0 u v ≠ 0 := by
+      intro u v hu hv; rw [S.hpair' u v hu hv]; exact mul_ne_zero (S.hρa u hu) (S.hρa v hv)
+    have h2 := cost_totalCorr_is_Hmap w' hc' (by rw [hL]; exact hm) (hinv' m hm) hρ' (hdet' m hm)
+    have huniq := prism_solution_unique (C01.mat p'.n p'.omega m) (C01.mat p'.n q'.directCorr m)
+      (Matrix.of fun (u v : Fin p'.n) => ρa u.1 * ρa v.1 * hh) (hdet' m hm) (by rw [hC']; exact hlift)
+    rw [← h2] at huniq
+    have h3 := congrFun (congrFun huniq ⟨c, hc1⟩) ⟨e, he⟩
+    simp only [C01.matH, Matrix.of_apply] at h3
+    rw [S.hpair' c e hc1 he] at h3
+    exact (mul_left_cancel₀ (mul_ne_zero (S.hρa c hc1) (S.hρa e he)) h3).symm
+  refine ⟨hcF l a b hl ha hb, hH l a b hl ha hb, ?_⟩
+  have hgoF : ∀ m c e, m < p.dom.length → c < p'.n → e < p'.n → T'.goF.at m c e = T.goF.at m 0 0 := by
+    intro m c e hm hc1 he
+    rw [T'.goF_at (by rw [hL]; exact hm) hc1 he, T.goF_at hm h0 h0, ← T'.hq_h, ← T.hq_h, ← T'.hq_c, ← T.hq_c,
+      hH m c e hm hc1 he, hcF m c e hm hc1 he]
+  have hgo : T'.go.at l a b = T.go.at l 0 0 := by
+    rw [T'.go_at (by rw [hL]; exact hl) ha hb, T.go_at hl h0 h0, S.hdom]
+    apply C07.toReal_congr p.dom _ _ _ l hl
+    intro k hk
+    rw [C07.pair_get _ _ _ _ (by rw [T'.goF_meta.1, hL]; exact hk), C07.pair_get _ _ _ _ (by rw [T.goF_meta.1]; exact hk)]
+    exact hgoF k _ _ hk (loI_lt ha hb) (hiI_lt ha hb)
+  rw [T'.y_at (by rw [hL]; exact hl) ha hb, T.y_at hl h0 h0, hgo, S.hdom]
+  congr 2
+  rw [T'.gin_at (by rw [hL]; exact hl) ha hb, T.gin_at hl h0 h0, hx l a b hl ha hb, S.hdom]
 
 end C04
